@@ -199,6 +199,7 @@ class World:
         self.pending_cb = []      # pre-ground colliding coinbase txs still to be spliced in
         self.coll_hashes = set()  # hashes of all colliding txs used
         self.coll_prob = 0.5
+        self.readd_on_reorg = False   # daemon puts txs of disconnected blocks back into its mempool (bitcoind behaviour)
 
     def use_collisions(self, nfam=2, rng=None):
         '''Schedule nfam families of colliding coinbases to be used as coinbases of coming blocks.'''
@@ -506,6 +507,16 @@ class World:
         return tip
 
     def switch_to(self, tip):
+        if self.readd_on_reorg and self.tip is not None:
+            # like bitcoind: transactions of disconnected blocks go back to the mempool if still valid on the new branch
+            ca = common_ancestor(self.tip, tip)
+            back = [t for b in self.tip.chain()[ca.height + 1:] for t in b.txs if not t.is_coinbase]
+            if back:
+                confirmed = {t.hash for b in tip.chain()[ca.height + 1:] for t in b.txs}
+                merged = {t.hash: t for t in back if t.hash not in confirmed}
+                merged.update(self.mempool)
+                self.mempool = merged
+                self.features.add('txs_returned_to_mempool_by_reorg')
         self.tip = tip
         self._prune_mempool()
         self.bump()
@@ -522,7 +533,7 @@ class World:
                     avail[(h, i)] = (s, v, -1)
         return avail
 
-    def mempool_add(self, *, parent=None, n_in=None, n_out=None, rng=None, generation_like=False):
+    def mempool_add(self, *, parent=None, n_in=None, n_out=None, rng=None, generation_like=False, prefer=None):
         '''Add a valid tx to the daemon mempool.  parent: 'confirmed' | 'unconfirmed' | None (any).'''
         rng = rng or self.rng
         avail = self.mempool_utxos()
@@ -534,7 +545,7 @@ class World:
             pool = avail
         if not pool:
             return None
-        t = self.random_tx(pool, self.tip.height + 1, rng, n_in=n_in, n_out=n_out, mark=False)
+        t = self.random_tx(pool, self.tip.height + 1, rng, n_in=n_in, n_out=n_out, mark=False, prefer=prefer)
         if t is None:
             return None
         if generation_like:
